@@ -380,6 +380,11 @@ struct Exec
 				if(out[0] < p[0] || out[0] > p[1])
 					bad(fmt("uniform sample %.17g outside [%.17g,%.17g]", out[0], p[0], p[1]));
 				break;
+			case 1:
+				// a Gaussian deviate beyond 9 standard deviations has probability 2e-19: not a fluctuation but a broken tail
+				if(std::fabs(out[0] - p[0]) > 9.0 * p[1])
+					ctx.violate("C18:law:gauss-outlier", fmt("Sample_Gauss returned %.17g = mean %+.2f sigma (probability < 1e-18 under the stated law)", out[0], (out[0] - p[0]) / p[1]) + "; " + describe(s));
+				break;
 			case 2:
 			case 8:
 				for(double v : out)
@@ -589,7 +594,7 @@ struct Exec
 				intr_calls++;
 			}
 			std::vector<double> out = draw(G, s);
-			if(k < 64)
+			if(k < 64 || s.kind == 1)
 				check_support(s, out);
 			if(out.empty())
 				continue;
